@@ -1,13 +1,17 @@
 import Teleport.Drv.C05
 open Teleport.Drv
 
+/-- every case kind of the line protocol with its model handler (one list per property module). -/
+def allHandlers : List (String × (Fields → String)) :=
+  handlersC05
+
 def handle (line : String) : String :=
   match (line.trimAscii.toString.splitOn " ").filter (· ≠ "") with
   | [] => "bad-op"
   | kind :: rest =>
-    let f := parseFields rest
-    if kind == "rawpack" || kind == "rawunpack" || kind == "rawstream" then c05 kind f
-    else "bad-kind"
+    match allHandlers.find? (·.1 == kind) with
+    | some (_, h) => h (parseFields rest)
+    | none => "bad-kind"
 
 partial def loop (h : IO.FS.Stream) (out : IO.FS.Stream) : IO Unit := do
   let line ← h.getLine
